@@ -86,7 +86,7 @@ def replay(case):
 def shard(ctx: Ctx):
     quick = ctx.tier == 'quick'
     sizes = gen.QUICK if quick else gen.THOROUGH
-    n = 120 if quick else 4000
+    n = 120 if quick else 1200
     hyp_run(ctx, 'parsed+built', C.cases(C.parse_features(), sizes, min_tables=1),
             lambda c: evaluate(c[0], c[1], ctx, 'parse-domain'), n)
     hyp_run(ctx, 'built-only', C.cases(C.built_features(), sizes, with_style=False, min_tables=1),
